@@ -477,6 +477,35 @@ CONST_C = "naunet/templates/base/cpp/src/naunet_constants.cpp.j2"
 CONST_H = "naunet/templates/base/cpp/include/naunet_constants.h.j2"
 
 
+def _network_field(ctx, field):
+    """value the renderer gives to `network.<field>` of the templates: the argument of the NetworkInfo(..) construction in
+    templateloader.py bound to that dataclass field (IR, simplified), or None"""
+    from .c02 import dataclass_fields, _bind_args
+    pkg = package(ctx.tree)
+    TL = "naunet/templateloader.py"
+    try:
+        fields = dataclass_fields(pkg, "NetworkInfo")
+    except Exception:
+        return None
+    if field not in fields:
+        return None
+    found = []
+    for ci in [pkg.cls("TemplateLoader")]:
+        for fn in ci.methods.values():
+            if not any(isinstance(c, ast.Call) and ast.unparse(c.func).split(".")[-1] == "NetworkInfo" for c in ast.walk(fn)):
+                continue
+            fl = Flow(fn, TL)
+            vals = [v for lst in fl.assigns.values() for v, *_ in lst] + [f.value for f in fl.facts if f.value is not None]
+            for v in vals:
+                for x in walk(v):
+                    if isinstance(x, tuple) and len(x) == 4 and x[0] == "call" and x[1] == ("global", "NetworkInfo") and x not in found:
+                        found.append(x)
+    if len(found) != 1:
+        return None
+    a = _bind_args(fields, found[0]).get(field)
+    return simp(a) if a is not None else None
+
+
 def _r6(ctx):
     """The templates that say `eb_<alias>` read a C constant: it must be defined, for every ice species, from the SAME species'
     binding energy, printed as Python prints the float (repr round-trips; a format filter rounds)."""
@@ -502,6 +531,21 @@ def _r6(ctx):
         elif base_ == SPECS and (lp[7] is not None or any(f[0] in ("select", "reject", "selectattr", "rejectattr", "slice", "batch") for f in fs_)):
             # understood and wrong: the species list with a further selection
             ctx.bad("R6", dkey, (rel, lp[5]), "one constant per surface species of the network", expected="network.species | selectattr('is_surface')", found=J.show(it_) + (f" if {J.show(lp[7])}" if lp[7] is not None else ""))
+        elif base_[0] == "attr" and base_[1] == ("name", "network") and not fs_ and lp[7] is None and _network_field(ctx, base_[2]) is not None:
+            # another field of the NetworkInfo handed to the templates: what the renderer puts into it
+            fv = _network_field(ctx, base_[2])
+            sel = None
+            if fv[0] == "comp" and fv[1] in ("list", "gen") and len(fv[3]) == 1 and fv[3][0][1][0] == "attr" and fv[3][0][1][2] == "species" and fv[2] == fv[3][0][0]:
+                sel = [c for c in fv[3][0][2]]
+            surf = ("attr", fv[3][0][0], "is_surface") if sel is not None else None
+            extra = [c for c in (sel or []) for x in split_guard((c, True)) if x != (surf, True)]
+            if sel is not None and any(x == (surf, True) for c in sel for x in split_guard((c, True))) and not extra:
+                ctx.ok("R6", dkey, (rel, lp[5]), "one constant per surface species of the network")
+            elif sel is not None and extra:
+                ctx.bad("R6", dkey, (rel, lp[5]), "one constant per surface species of the network", expected="network.species | selectattr('is_surface')",
+                        found=f"network.{base_[2]} = the species selected by {'; '.join(show(c)[:70] for c in sel)}")
+            else:
+                ctx.unrec("R6", dkey, (rel, lp[5]), f"cannot tell which species the eb_ constants are emitted for: network.{base_[2]} = {show(fv)[:100]}")
         else:
             ctx.unrec("R6", dkey, (rel, lp[5]), f"cannot tell which species the eb_ constants are emitted for: {J.show(it_)}")
         idx = [i for i, x in enumerate(body) if x[0] == "text" and x[1].rstrip().endswith("eb_")][0]
